@@ -1314,7 +1314,7 @@ class AnyPayloadDecoder(AbstractSimplePayloadDecoder):
                 LOG('decoding as untagged ANY, header substrate %s' % debug.hexdump(chunk))
 
         # Any components do not inherit initial tag
-        asn1Spec = self.protoComponent
+        origSpec, asn1Spec = asn1Spec, self.protoComponent
 
         if substrateFun and substrateFun is not self.substrateCollector:
             asn1Object = self._createComponent(
@@ -1328,6 +1328,9 @@ class AnyPayloadDecoder(AbstractSimplePayloadDecoder):
 
         if LOG:
             LOG('assembling constructed serialization')
+
+        # being called to collect fragments for the outer ANY?
+        isFragment = substrateFun is self.substrateCollector
 
         # All inner fragments are of the same type, treat them as octet string
         substrateFun = self.substrateCollector
@@ -1349,11 +1352,11 @@ class AnyPayloadDecoder(AbstractSimplePayloadDecoder):
 
             chunk += component
 
-        if substrateFun:
-            yield chunk  # TODO: Weird
+        if isFragment:
+            yield chunk
 
         else:
-            yield self._createComponent(asn1Spec, tagSet, chunk, **options)
+            yield self._createComponent(origSpec, tagSet, chunk, **options)
 
 
 # character string types
